@@ -243,9 +243,9 @@ Lemma budget_nosend c s s' called b :
 Proof.
   intros Man E B. unfold ss_eff in E. rewrite Man in E. destruct called; cbn [andb] in E.
   - symmetry in E. apply count_down_spec in E. destruct E as (E1 & E2 & E3). split; auto.
-    destruct b as [k|]; unfold budget_ok in *; auto. intros En'. specialize (E1 En'). specialize (B E1). specialize (E3 E1 ltac:(lia)). Show.
-    destruct E3 as [-> E3]. specialize (E3 En'). lia.
-  - destruct E as [-> ->]. auto.
+    destruct b as [k|]; unfold budget_ok in *; auto. intros En'. specialize (E1 En'). specialize (B E1). specialize (E3 E1 ltac:(lia)).
+    destruct E3 as [E3a E3b]. specialize (E3b En'). lia.
+  - destruct E as [Ea Eb]. unfold budget_ok in *. rewrite Ea. destruct b; rewrite ?Eb; auto.
 Qed.
 
 (* begin / continue that sends a PDU *)
@@ -256,10 +256,10 @@ Lemma budget_send c s s' b :
 Proof.
   intros Man E En B. unfold ss_eff in E. rewrite Man in E. cbn [andb] in E.
   symmetry in E. apply count_down_spec in E. destruct E as (E1 & E2 & E3).
-  destruct b as [k|]; unfold budget_ok in *; auto. specialize (B En). specialize (E3 En ltac:(lia)). destruct E3 as [-> E3].
+  destruct b as [k|]; unfold budget_ok in *; auto. specialize (B En). specialize (E3 En ltac:(lia)). destruct E3 as [E3a E3b].
   split.
   - destruct k; auto. lia.
-  - intros En'. specialize (E3 En'). lia.
+  - intros En'. specialize (E3b En'). lia.
 Qed.
 
 Lemma restart_core c s m s' x :
@@ -270,12 +270,10 @@ Proof.
   assert (Hint : current_interval c s' = current_interval c s) by (unfold current_interval; rewrite Hv; auto).
   destruct x as [|ch d t]; cbn [on_sched fst snd].
   - destruct H as (Hi & called & Heff). split; auto.
-    unfold core24. rewrite Hm, Hint. repeat split; auto.
-    + destruct (c_manual c) eqn:Man; auto. destruct Css as [Css1 Css2].
-      destruct (budget_nosend _ _ _ _ _ Man Heff Css2) as [B1 B2]. split; auto.
-    + apply Cp; auto.
-    + unfold current_channel. rewrite Hi. apply Cp; auto.
-    + apply Cp; auto.
+    assert (Hcc : current_channel c s' = current_channel c s) by (unfold current_channel; rewrite Hi; auto).
+    unfold core24. rewrite Hm, Hint, Hcc. refine (conj Cm (conj Clt (conj Ci (conj _ Cp)))).
+    destruct (c_manual c) eqn:Man; auto. destruct Css as [Css1 Css2].
+    destruct (budget_nosend _ _ _ _ _ Man Heff Css2) as [B1 B2]. split; auto.
   - destruct H as (Heff & Hen & Hmz & Hch & Hidx).
     assert (Hchan : chan_enabled (m_map m) ch = true /\ ch = lowest_channel (m_map m)).
     { rewrite Hch. unfold current_channel. rewrite Hidx. rewrite Cm in *. destruct (c_varmap c).
@@ -294,5 +292,254 @@ Proof.
     split.
     + unfold judge_pdu. rewrite Hc1, Hon, Hb. cbn [negb]. rewrite Hc2, N.eqb_refl. reflexivity.
     + unfold core24, after_pdu. cbn [m_map m_ival m_last m_pending m_on m_budget m_void].
-      rewrite Hm, Hint. repeat split; auto.
+      rewrite Hm, Hint. refine (conj Cm (conj Clt (conj Ci (conj Hss _)))). intros _. split; auto.
+Qed.
+
+Lemma continue_core c s m s' x :
+  core24 c s m -> m_map m <> 0 -> 0 < m_pending m -> handle_adv_timeout c s = Some (s', x) ->
+  fst (on_sched (answer m) false x) = Ok /\ core24 c s' (snd (on_sched (answer m) false x)).
+Proof.
+  intros (Cm & Clt & Ci & Css & Cp) Hnz Hpend H. apply timeout_effect in H. destruct H as (Hm & Hv & H).
+  destruct (Cp Hpend) as [Cl Cle].
+  assert (Hint : current_interval c s' = current_interval c s) by (unfold current_interval; rewrite Hv; auto).
+  destruct x as [|ch d t]; cbn [on_sched fst snd].
+  - destruct H as (Hi & called & Heff). split; auto.
+    assert (Hcc : current_channel c s' = current_channel c s) by (unfold current_channel; rewrite Hi; auto).
+    unfold core24, answer. cbn [m_map m_ival m_last m_pending m_on m_budget m_void].
+    rewrite Hm, Hint, Hcc. refine (conj Cm (conj Clt (conj Ci (conj _ (fun _ => conj Cl Cle))))).
+    destruct (c_manual c) eqn:Man; auto. destruct Css as [Css1 Css2].
+    destruct (budget_nosend _ _ _ _ _ Man Heff Css2) as [B1 B2]. split; auto.
+  - destruct H as (Heff & Hen & Hmz & Hch & Hidx & Hd).
+    (* where the stepping function went *)
+    assert (Hchan : chan_enabled (m_map m) ch = true /\
+              match next_enabled_after (m_map m) (m_last m) with
+              | Some e => ch = e /\ first_channel_selected c s' = false /\ m_last m < e
+              | None => ch = lowest_channel (m_map m) /\ first_channel_selected c s' = true
+              end).
+    { rewrite Hch, Cl. rewrite Cl in Cle. unfold current_channel, first_channel_selected in *. rewrite Hidx, Hm. rewrite Cm in *.
+      destruct (c_varmap c).
+      - unfold first_advertising_channel.
+        destruct (var_step (ch_map s) (ch_idx s)) as [V1 V2]; [lia|exact Cle|]. split; auto.
+        destruct (next_enabled_after (ch_map s) (ch_idx s + 37)) as [e|].
+        + destruct V2 as (V2 & V3 & V4). auto.
+        + rewrite V2. destruct (var_first (ch_map s)) as [F1 F2]; [lia|]. rewrite N.eqb_refl. auto.
+      - pose proof (all_step (ch_idx s) Cle) as A. cbv zeta in A. destruct A as [A1 A2]. split; auto.
+        unfold first_advertising_channel.
+        destruct (next_enabled_after 7 (ch_idx s)) as [e|].
+        + destruct A2 as (A2 & A3 & A4). auto.
+        + rewrite A2. vm_compute. auto. }
+    destruct Hchan as [Hc1 Hc2].
+    assert (Hon : m_on m = true /\ (match m_budget m with Some 0 => true | _ => false end) = false /\
+                  (if c_manual c then (ss_enabled s' = true -> m_on m = true) /\
+                       budget_ok s' (match m_budget m with Some k => Some (k - 1) | None => None end)
+                   else m_on m = true /\ match m_budget m with Some k => Some (k - 1) | None => None end = None)).
+    { destruct (c_manual c) eqn:Man.
+      - destruct Css as [Css1 Css2]. specialize (Hen eq_refl).
+        destruct (budget_send _ _ _ _ Man Heff Hen Css2) as [B1 B2]. repeat split; auto.
+      - destruct Css as [Css1 Css2]. rewrite Css2. repeat split; auto. }
+    destruct Hon as (Hon & Hb & Hss).
+    split.
+    + unfold judge_pdu, answer. cbn [m_map m_ival m_last m_pending m_on m_budget m_void].
+      rewrite Hc1, Hon, Hb. cbn [negb].
+      destruct (next_enabled_after (m_map m) (m_last m)) as [e|].
+      * destruct Hc2 as (-> & Hf & Hlt).
+        assert (L : (e <? m_last m) = false) by lia. rewrite L, N.eqb_refl. cbn [negb].
+        destruct Hd as [[_ ->]|[Hd _]]; [reflexivity | congruence].
+      * destruct Hc2 as (-> & Hf). rewrite N.eqb_refl. cbn [negb].
+        destruct Hd as [[Hd _]|[_ Hd]]; [congruence|].
+        rewrite Ci. unfold max_delay.
+        assert (L : ((current_interval c s <=? d) && (d <=? current_interval c s + 10000)) = true) by lia.
+        rewrite L. reflexivity.
+    + unfold core24, after_pdu, answer. cbn [m_map m_ival m_last m_pending m_on m_budget m_void].
+      rewrite Hm, Hint. refine (conj Cm (conj Clt (conj Ci (conj Hss _)))). intros _. split; auto.
+Qed.
+
+Lemma core_frame c s s1 m : core24 c s m -> same24 s s1 -> core24 c s1 m.
+Proof.
+  intros (Cm & Clt & Ci & Css & Cp) (Ei & Em & Ev & Ep & Est & Een & Ecn).
+  unfold core24, current_interval, current_channel, budget_ok in *. rewrite Ei, Em, Ev, Een, Ecn. auto.
+Qed.
+
+Lemma start_none c s : handle_start_advertising c s = None -> c_varmap c = true /\ ch_map s = 0.
+Proof.
+  unfold handle_start_advertising.
+  set (s1 := if is_multi c then set_selected s (proposal s) else s).
+  assert (E1 : same24 s s1) by (unfold s1, same24; destruct (is_multi c); psimpl; repeat split).
+  pose proof (fill_same c s1) as E2. destruct (fill_advertising_data c s1) as [ne s2]. cbn [snd] in E2.
+  pose proof (same24_trans _ _ _ E1 E2) as E. destruct E as (Ei & Em & Ev & Ep & Est & Een & Ecn).
+  destruct ne; cbn [negb]; [|discriminate].
+  destruct (begin_of_advertising_events c s2) as [go s3] eqn:B.
+  apply begin_effect in B. destruct B as (Beff & Bgo & Bi & Bm & Bv & Bp & Bb).
+  destruct go; cbn [negb]; [|discriminate].
+  unfold first_channel. destruct (c_varmap c); [|discriminate].
+  destruct (ch_map s3 =? 0) eqn:Z; [|discriminate]. intros _. split; auto. rewrite <- Em, <- Bm. lia.
+Qed.
+
+Lemma timeout_none c s : handle_adv_timeout c s = None -> c_varmap c = true /\ ch_map s = 0.
+Proof.
+  unfold handle_adv_timeout.
+  set (fs := if is_multi c then _ else _).
+  assert (E1 : same24 s (snd fs)).
+  { unfold fs, same24. destruct (is_multi c); [destruct (negb (Nat.eqb (selected s) (proposal s)))|]; psimpl; repeat split. }
+  destruct fs as [fill s1]. cbn [snd] in E1.
+  set (ns := if fill then _ else _).
+  assert (E2 : same24 s1 (snd ns)).
+  { unfold ns. destruct fill; [apply fill_same | apply same24_refl]. }
+  destruct ns as [ne s2]. cbn [snd] in E2.
+  pose proof (same24_trans _ _ _ E1 E2) as E. destruct E as (Ei & Em & Ev & Ep & Est & Een & Ecn).
+  destruct ne; cbn [negb]; [|discriminate].
+  destruct (continued_advertising_events c s2) as [go s3] eqn:B.
+  apply continued_effect in B. destruct B as (Beff & Bgo & Bi & Bm & Bv & Bp & Bb).
+  destruct go; cbn [negb]; [|discriminate].
+  unfold next_channel. destruct (c_varmap c).
+  - destruct (ch_map s3 =? 0) eqn:Z.
+    + intros _. split; auto. rewrite <- Em, <- Bm. lia.
+    + destruct (next_adv_event c _); discriminate.
+  - destruct (next_adv_event c _); discriminate.
+Qed.
+
+(* a (re)start: the result of lift (handle_start_advertising c s1) *)
+Lemma restart_lift c s0 s1 m1 :
+  core24 c s1 m1 -> m_map m1 <> 0 ->
+  exists x, snd (lift (handle_start_advertising c s1) s0) = OSched x /\
+            fst (on_sched m1 true x) = Ok /\
+            core24 c (fst (lift (handle_start_advertising c s1) s0)) (snd (on_sched m1 true x)).
+Proof.
+  intros C Hnz. destruct (handle_start_advertising c s1) as [[s' x]|] eqn:H.
+  - exists x. cbn [lift fst snd]. split; auto. apply restart_core with (s := s1); auto.
+  - apply start_none in H. destruct H as [VM Z]. destruct C as (Cm & _). rewrite VM in Cm. congruence.
+Qed.
+
+Lemma void_inv c s m : inv24 c s (void24 m).
+Proof. left. reflexivity. Qed.
+
+Lemma on_sched_void m b x : m_void (snd (on_sched m b x)) = m_void m \/ m_void (snd (on_sched m b x)) = false.
+Proof. destruct x; cbn; auto. Qed.
+
+Ltac msimpl := cbn [m_map m_ival m_last m_pending m_on m_budget m_void set_on set_mmap set_mival answer void24 after_pdu fst snd].
+
+Lemma core_set_on_start c s m st :
+  c_manual c = true -> core24 c s m -> core24 c (set_ss s st true 0) (set_on m true None).
+Proof.
+  intros Man (Cm & Clt & Ci & Css & Cp). unfold core24, current_interval, current_channel, budget_ok in *. psimpl. msimpl.
+  refine (conj Cm (conj Clt (conj Ci (conj _ Cp)))). rewrite Man. auto.
+Qed.
+
+Lemma core_set_on_startn c s m st k :
+  c_manual c = true -> k <> 0 -> core24 c s m -> core24 c (set_ss s st true k) (set_on m true (Some k)).
+Proof.
+  intros Man Hk (Cm & Clt & Ci & Css & Cp). unfold core24, current_interval, current_channel, budget_ok in *. psimpl. msimpl.
+  refine (conj Cm (conj Clt (conj Ci (conj _ Cp)))). rewrite Man. split; auto. intros _. lia.
+Qed.
+
+Lemma step24_ok c s m o :
+  inv24 c s m ->
+  fst (mstep24 c m o (snd (step c s o))) = Ok /\
+  inv24 c (fst (step c s o)) (snd (mstep24 c m o (snd (step c s o)))).
+Proof.
+  intros I.
+  destruct (m_void m) eqn:V.
+  { unfold mstep24. rewrite V. cbn [fst snd]. split; auto. left; auto. }
+  destruct I as [I|C]; [congruence|].
+  pose proof C as (Cm & Clt & Ci & Css & Cp).
+  unfold mstep24. rewrite V.
+  destruct o; cbn [step].
+  - (* LStart *)
+    destruct (m_map m =? 0) eqn:Z; [cbn [fst snd]; split; auto; apply void_inv|].
+    destruct (restart_lift c s s m C ltac:(lia)) as (x & Hr & Hok & Hc).
+    rewrite Hr. cbn [fst snd]. split; auto. right; auto.
+  - (* LStop *)
+    cbn [fst snd]. split; auto. right.
+    unfold end_of_advertising_events. destruct (c_manual c) eqn:Man; auto.
+    unfold core24, current_interval, current_channel, budget_ok in *. rewrite Man in *. psimpl. msimpl.
+    refine (conj Cm (conj Clt (conj Ci (conj _ Cp)))). split; [discriminate|]. destruct (m_budget m); auto. discriminate.
+  - (* Timeout *)
+    destruct ((m_pending m =? 0) || (m_map m =? 0)) eqn:Z; [cbn [fst snd]; split; auto; apply void_inv|].
+    destruct (handle_adv_timeout c s) as [[s' x]|] eqn:H; cbn [lift fst snd].
+    + destruct (continue_core c s m s' x C ltac:(lia) ltac:(lia) H) as [Hok Hc]. split; auto. right; auto.
+    + apply timeout_none in H. destruct H as [VM Hz]. rewrite VM in Cm. lia.
+  - (* Rx *)
+    destruct ((m_pending m =? 0) || (m_map m =? 0)) eqn:Z; [cbn [fst snd]; split; auto; apply void_inv|].
+    destruct (accepts c s p); cbn [fst snd].
+    + split; auto. right. unfold core24, answer in *. msimpl.
+      refine (conj Cm (conj Clt (conj Ci (conj Css _)))). intros _. apply Cp. lia.
+    + destruct (handle_adv_timeout c s) as [[s' x]|] eqn:H; cbn [fst snd].
+      * destruct (continue_core c s m s' x C ltac:(lia) ltac:(lia) H) as [Hok Hc]. split; auto. right; auto.
+      * apply timeout_none in H. destruct H as [VM Hz]. rewrite VM in Cm. lia.
+  - (* Start *)
+    destruct ((m_map m =? 0) || negb (c_manual c)) eqn:Z; [cbn [fst snd]; split; auto; apply void_inv|].
+    assert (Man : c_manual c = true) by (destruct (c_manual c); auto; rewrite orb_true_r in Z; discriminate).
+    rewrite Man. cbn [negb].
+    pose proof (core_set_on_start c s m (ss_started s) Man C) as C1.
+    destruct (negb (ss_enabled s) && ss_started s).
+    + destruct (restart_lift c s _ _ C1 ltac:(msimpl; lia)) as (x & Hr & Hok & Hc).
+      rewrite Hr. cbn [fst snd]. split; auto. right; auto.
+    + cbn [fst snd on_sched]. split; auto. right; auto.
+  - (* StartN *)
+    destruct ((m_map m =? 0) || (k =? 0) || negb (c_manual c)) eqn:Z; [cbn [fst snd]; split; auto; apply void_inv|].
+    assert (Man : c_manual c = true) by (destruct (c_manual c); auto; rewrite orb_true_r in Z; discriminate).
+    rewrite Man. cbn [negb].
+    assert (Hk : (k =? 0) = false) by lia. rewrite Hk.
+    pose proof (core_set_on_startn c s m (ss_started s) k Man ltac:(lia) C) as C1.
+    destruct (negb (ss_enabled s) && ss_started s).
+    + destruct (restart_lift c s _ _ C1 ltac:(msimpl; lia)) as (x & Hr & Hok & Hc).
+      rewrite Hr. cbn [fst snd]. split; auto. right; auto.
+    + cbn [fst snd on_sched]. split; auto. right; auto.
+  - (* Stop *)
+    destruct (negb (c_manual c)) eqn:Man; [cbn [fst snd]; split; auto; apply void_inv|].
+    cbn [fst snd]. split; auto. right.
+    unfold core24, current_interval, current_channel, budget_ok in *. psimpl. msimpl.
+    refine (conj Cm (conj Clt (conj Ci (conj _ Cp)))). destruct (c_manual c); [|discriminate]. Show. split; auto. discriminate.
+  - (* AddCh *)
+    destruct (negb (m_pending m =? 0) || negb (in_adv_channels ch) || negb (c_varmap c)) eqn:Z;
+      [cbn [fst snd]; split; auto; apply void_inv|].
+    assert (VM : c_varmap c = true) by (destruct (c_varmap c); auto; rewrite orb_true_r in Z; discriminate).
+    assert (Hin : in_adv_channels ch = true) by (destruct (in_adv_channels ch); auto; rewrite VM in Z; cbn in Z; rewrite orb_true_r in Z; discriminate).
+    rewrite VM, Hin. cbn [negb fst snd]. split; auto. right.
+    unfold core24, current_interval, current_channel, budget_ok in *. rewrite VM in *. psimpl. msimpl.
+    unfold first_advertising_channel. rewrite Cm.
+    refine (conj eq_refl (conj _ (conj Ci (conj Css _)))).
+    + rewrite <- Cm. apply map_add_lt; auto.
+    + intros HP. lia.
+  - (* RmCh *)
+    destruct (negb (m_pending m =? 0) || negb (in_adv_channels ch) || negb (c_varmap c)) eqn:Z;
+      [cbn [fst snd]; split; auto; apply void_inv|].
+    assert (VM : c_varmap c = true) by (destruct (c_varmap c); auto; rewrite orb_true_r in Z; discriminate).
+    assert (Hin : in_adv_channels ch = true) by (destruct (in_adv_channels ch); auto; rewrite VM in Z; cbn in Z; rewrite orb_true_r in Z; discriminate).
+    rewrite VM, Hin. cbn [negb fst snd]. split; auto. right.
+    unfold core24, current_interval, current_channel, budget_ok in *. rewrite VM in *. psimpl. msimpl.
+    unfold first_advertising_channel. rewrite Cm.
+    refine (conj eq_refl (conj _ (conj Ci (conj Css _)))).
+    + rewrite <- Cm. apply map_rm_lt; auto.
+    + intros HP. lia.
+  - (* IvalMs *)
+    destruct (negb (c_varival c)) eqn:VI; [cbn [fst snd]; split; auto; apply void_inv|].
+    cbn [fst snd]. split; auto. right.
+    assert (VI' : c_varival c = true) by (destruct (c_varival c); auto; discriminate).
+    unfold core24, current_interval, current_channel, budget_ok in *. rewrite VI' in *.
+    destruct ((20 <=? ms) && (ms <=? 10240)); psimpl; msimpl; auto.
+    refine (conj Cm (conj Clt (conj eq_refl (conj Css Cp)))).
+  - (* IvalUs *)
+    destruct (negb (c_varival c)) eqn:VI; [cbn [fst snd]; split; auto; apply void_inv|].
+    cbn [fst snd]. split; auto. right.
+    assert (VI' : c_varival c = true) by (destruct (c_varival c); auto; discriminate).
+    unfold core24, current_interval, current_channel, budget_ok in *. rewrite VI' in *.
+    destruct ((20000 <=? us) && (us <=? 10240000)); psimpl; msimpl; auto.
+    refine (conj Cm (conj Clt (conj eq_refl (conj Css Cp)))).
+  - (* DAddr *)
+    destruct (m_map m =? 0) eqn:Z; [cbn [fst snd]; split; auto; apply void_inv|].
+    destruct (negb (has_directed c)); [cbn [fst snd]; split; auto; apply void_inv|].
+    set (s1 := set_daddr s a (negb (addr_eqb a zero_addr))).
+    assert (C1 : core24 c s1 m) by (apply core_frame with (s := s); auto; unfold s1, same24; psimpl; repeat split).
+    destruct (negb (d_valid s) && negb (addr_eqb a zero_addr) && d_started s).
+    + destruct (restart_lift c s _ _ C1 ltac:(lia)) as (x & Hr & Hok & Hc).
+      rewrite Hr. cbn [fst snd]. split; auto. right; auto.
+    + cbn [fst snd on_sched]. split; auto. right; auto.
+  - (* Chg *)
+    destruct (is_multi c && Nat.ltb k (length (types_of c))); cbn [fst snd]; split; auto; try apply void_inv.
+    right. apply core_frame with (s := s); auto. unfold same24; psimpl; repeat split.
+  - (* DataChanged *)
+    cbn [fst snd]. split; auto. right. apply core_frame with (s := s); auto. unfold same24; psimpl; repeat split.
+  - cbn [fst snd]. split; auto. right; auto.
+  - cbn [fst snd]. split; auto. right; auto.
 Qed.
